@@ -841,13 +841,26 @@ func main() {
 		"4 exchanges in sequence against a harness server that plays one behaviour, cycled per scheme: redirect {301,302,303,307,308} x {other host, other host + other port, IP literal of a decoy listener, same host other port, http:// same authority, http:// decoy, relative path, scheme-relative}, "+
 		"Alt-Svc advertising h3 / h2 at another port / the decoy, 421 / 503+Retry-After, connection closed after each reply / without reply / after the handshake / every other TLS handshake refused, other ALPN offers, QUIC Retry; "+
 		"a decoy (TCP+TLS, QUIC) listens where the server points. Such a case is non-trivial when the behaviour was actually played and the case's destinations were positively observed; every connection, ClientHello and request that follows is judged like the first, "+
-		"nothing from the case's sockets may reach the decoy, and no connection of a TLS based scheme may start in plain text")
+		"nothing from the case's sockets may reach the decoy, and no connection of a TLS based scheme may start in plain text. "+
+		"Phase 4 (history dimension, appended; in-process, listeners as observers): host-name upstreams {tls,tls+pipeline,https,quic,h3} x {url host, dial_addr host, dial_addr host:port} x bootstrap_version {0,4,6 (AAAA, v4-mapped)} x served ttl, "+
+		"whose bootstrap server answers successive resolutions with 4 different loopback addresses (same port, listener on each); 3 refreshes are made due through the bootstrap.tryupdate schedule point; "+
+		"queries that start after the bootstrap server sent a refresh answer must settle (3 consecutive connection-producing queries out of at most 24) on the newest address handed out, SNI unchanged; a step is non-trivial when connections were observed at the newest address after a refresh")
 	rep.Assume("strace reports the sockaddr arguments of connect/sendto/sendmsg/sendmmsg faithfully; SO_MARK set through Opt.SoMark labels every socket mosdns opens for a case")
 	rep.Assume("Go's crypto/tls and net/http, quic-go, x/net/proxy and miekg/dns behave as documented (harness servers are built on them)")
 	rep.Assume("a context of 300 ms (unreachable destinations) / 1.5 s (loopback) only bounds how long a case is watched; no verdict depends on elapsed time")
 
 	var cases []*Case
+	var refreshCases []*RefreshCase
 	if rep.ReplayFile != "" {
+		var rw struct {
+			Refresh *RefreshCase `json:"refresh_case"`
+		}
+		if err := rep.LoadReplay(&rw); err == nil && rw.Refresh != nil {
+			// a case of the refresh phase: nothing else is re-executed
+			outs := runRefreshPhase([]*RefreshCase{rw.Refresh})
+			reportRefreshPhase([]*RefreshCase{rw.Refresh}, outs, true)
+			rep.Finish()
+		}
 		var w struct {
 			Case     *Case   `json:"case"`
 			Siblings []*Case `json:"sibling_group"`
@@ -869,6 +882,7 @@ func main() {
 		cases = genCases(rep.Seed, rep.Pick(1600, 30000))
 		cases = append(cases, genOptionPhase(rep.Seed, len(cases), rep.Pick(120, 2400), rep.Pick(60, 1200))...)
 		cases = append(cases, genHostilePhase(rep.Seed, len(cases), rep.Pick(180, 3600))...)
+		refreshCases = genRefreshCases(rep.Seed, rep.Thorough())
 	}
 
 	tmp := os.Getenv("VERIF_TMP")
@@ -918,6 +932,11 @@ func main() {
 		running: map[int]*caseRes{}, finished: map[int]*caseRes{}, results: map[int]*Result{}, groups: map[int]*groupRes{}}
 	p.cond = sync.NewCond(&p.mu)
 
+	// phase 4 (bootstrap refresh history) runs in this process, beside the traced child
+	refreshDone := make(chan []*refreshOutcome, 1)
+	if len(refreshCases) > 0 {
+		go func() { refreshDone <- runRefreshPhase(refreshCases) }()
+	}
 	tr, childErrTxt, runErr := p.runTraced(tmp, time.Duration(rep.Pick(8, 40))*time.Minute)
 	if tmp != os.Getenv("VERIF_TMP") {
 		os.RemoveAll(tmp)
@@ -930,6 +949,9 @@ func main() {
 	}
 
 	evaluate(p, tr)
+	if len(refreshCases) > 0 {
+		reportRefreshPhase(refreshCases, <-refreshDone, false)
+	}
 	rep.Finish()
 }
 
